@@ -706,6 +706,8 @@ func TestC16(t *testing.T) {
 		return
 	}
 	scs := scenarios(t)
+	// small-bound scenarios first: a deadline met on a loaded machine then cuts the tail of the big explorations, not these
+	sort.SliceStable(scs, func(i, j int) bool { return scs[i].Bound < scs[j].Bound })
 	var gs []gosim.Scenario
 	for _, sc := range scs {
 		gs = append(gs, toScenario(sc))
